@@ -49,6 +49,19 @@ CLAIMED = {
         technique="TLA+ spec + TLC exhaustive state graph / simulation, edge-cover replay with spec-generated stubs, spec-exported scatter table",
         ref="5/C14",
     ),
+    "C26": dict(
+        level="model_checking",
+        text="Memo.tla models the memoised evaluations as LRU tables with key projection, read arguments, hidden dependencies, nested "
+             "memoised calls and mutators for five families (RigidBody, Sphere2Sphere body-body and frame-body, Mesh1D, CosseratRod). TLC "
+             "checks NoStaleHit/AllEntriesCurrent/SizesRespected/KeyCoversReads exhaustively over all interleavings up to the bound and "
+             "rejects the as-found design without invalidation. Every transition and simulated behaviours are replayed into twin real "
+             "objects (caches as shipped vs zero-size caches); every result is compared bit for bit.",
+        note="Argument pools of 2-3 values per argument (including pairs that differ only in the component a careless key would drop), "
+             "up to 3-6 operations exhaustively and 40-60 in simulation. Cache contents are compared with the spec tables only informatively "
+             "(a different cache size is still transparent). Rod tables are exercised through r_OP/r_OP_q on one element.",
+        technique="TLA+ spec + TLC exhaustive interleavings, edge-cover replay into memoising/non-memoising twin objects",
+        ref="5/C26",
+    ),
 }
 
 NOT_APPLICABLE = {
